@@ -135,6 +135,21 @@ Definition flagged (l : list str) : list (bool * str) :=
   | c :: t => (false, c) :: map (fun x => (true, x)) t
   end.
 
+(* the two lookups of one round of the loop, each with the path the entries are
+   resolved against (cur_portname):
+     ports.apropos(is_parent ? cur + "/" : cur)      the address as it stands, a parent as "name/"
+     ports.apropos(rel2abs("self:", cur))            the "self:" port of the directory that holds it
+                                                     (rSelf(.., rEnabledBy(x)) disables the whole directory) *)
+Definition self_name : str := [115; 101; 108; 102; 58].
+Definition lookup_path (ic : bool * str) : str := if fst ic then snd ic ++ [slash] else snd ic.
+Definition lookups (cur : str) : list (str * str) :=
+  flat_map (fun ic => (lookup_path ic, snd ic) ::
+                      match rel2abs self_name (snd ic) with
+                      | Some s => [(s, snd ic)]
+                      | None => []
+                      end)
+           (flagged (ancestors cur)).
+
 Section Scan.
   Variable apropos : str -> option pmeta.
   Variable keys : list str.                 (* addresses that have a message *)
@@ -150,10 +165,9 @@ Section Scan.
     | O => None
     | S f =>
         fold_left
-          (fun acc (ic : bool * str) =>
-             let c := snd ic in
-             (* the address itself as it stands, every parent as "name/" *)
-             match apropos (if fst ic then c ++ [slash] else c) with
+          (fun acc (lc : str * str) =>
+             let c := snd lc in
+             match apropos (fst lc) with
              | None => acc
              | Some m =>
                  fold_left
@@ -172,7 +186,7 @@ Section Scan.
                       end)
                    (dep_values m) acc
              end)
-          (flagged (ancestors cur)) (Some [])
+          (lookups cur) (Some [])
     end.
 End Scan.
 
